@@ -122,6 +122,15 @@ func newSession(
 	mergedAlphaConfiguration := MergeConfigurations(configuration, configurationAlpha)
 	mergedBetaConfiguration := MergeConfigurations(configuration, configurationBeta)
 
+	// Verify that the merged endpoint configurations are valid, since
+	// endpoint-specific configurations are validated without knowledge of the
+	// session-wide settings that affect their interpretation.
+	if err := mergedAlphaConfiguration.EnsureValid(false); err != nil {
+		return nil, fmt.Errorf("invalid effective alpha configuration: %w", err)
+	} else if err = mergedBetaConfiguration.EnsureValid(false); err != nil {
+		return nil, fmt.Errorf("invalid effective beta configuration: %w", err)
+	}
+
 	// If the session isn't being created paused, then try to connect to the
 	// endpoints. Before doing so, set up a deferred handler that will shut down
 	// any endpoints that aren't handed off to the run loop due to errors.
